@@ -14,12 +14,15 @@ SLICE_FORMS = ['a:b', 'a:', ':b', '::c', ':', 'a::', ':b:']
 class G:
     """generator over a `draw` callable"""
 
-    def __init__(self, draw, names=NAMES, trailing_commas=True, expr_params=True):
+    def __init__(self, draw, names=NAMES, trailing_commas=True, expr_params=True, blanks=False):
         self.draw = draw
         self.names = names
         self.tc = trailing_commas
         self.expr_params = expr_params
         self._int = {}
+        self.blanks = blanks
+        if blanks:
+            self.names = list(names) + ['%a b%', '%a  b%', '%a\tb%', '% a%']
 
     def n(self, k):
         """integer in [0, k)"""
@@ -41,7 +44,7 @@ class G:
         if r < 15:
             return ('Val', D(self.pick(['1', '2', '3.5', '0', '10.25'])))
         if r < 17:
-            return ('Val', self.pick(['s', 'q', '']))
+            return ('Val', self.pick(['s', 'q', '', 'a b', 'a  b', 'a\tb', ' ', '  ', 'a b ', 'a b  ']) if self.blanks else self.pick(['s', 'q', '']))
         return ('Val', self.pick([True, False, None]))
 
     def expr(self, d):
@@ -106,8 +109,8 @@ class G:
 
 
 @st.composite
-def programs(draw, max_depth=5, max_stmts=3, trailing_commas=True):
-    """list of marked statement trees"""
-    g = G(draw, trailing_commas=trailing_commas)
+def programs(draw, max_depth=5, max_stmts=3, trailing_commas=True, blanks=False):
+    """list of marked statement trees; blanks: literals and %names% that differ only in their inner blanks / tabs"""
+    g = G(draw, trailing_commas=trailing_commas, blanks=blanks)
     n = 1 + g.n(max_stmts)
     return [g.stmt(1 + g.n(max_depth)) for _ in range(n)]
